@@ -158,6 +158,18 @@ class ToList(Harness):
         # query-level: when every unit in the model is a plain length or time, rebuild the list from database units
         pool = {'m': ['meter', 'centimeter', 'foot', 'inch'], 's': ['hour', 'minute', 'second', 'millisecond']}
         dims = [conc_dim(inputs, 'dt', self.U)] + [conc_dim(inputs, 'd%d' % i, self.U) for i in range(self.n)]
+        if label != 'validate' and dims[0] and all(d == dims[0] for d in dims) and not self.consts:
+            # a value law on a conformable list: rebuild a list of real length units with the same size ordering as the model
+            pool = ['inch', 'foot', 'yard', 'mile', 'league']
+            us = [Fraction(inputs['u%d' % i]) for i in range(self.n)]
+            order = sorted(range(self.n), key=lambda i: us[i])
+            names = [None] * self.n
+            for rank, i in enumerate(order):
+                names[i] = pool[rank]
+            sign = -1 if v < 0 else 1
+            reqs.append({'mode': 'query', 'text': '%s inch -> %s' % (frac_text(sign * Fraction(100000003, 7)), ';'.join(names)), 'lift': 'order'})
+            reqs += [{'mode': 'lookup', 'name': nme} for nme in names]
+            return reqs
         if label != 'validate' and all(len(d) == 1 and list(d.values()) == [1] for d in dims):
             used = {'m': 0, 's': 0}
             names = []
@@ -204,6 +216,32 @@ class ToList(Harness):
             if total != v:
                 bad.append('parts sum to %s, not %s' % (total, v))
             return (bool(bad), '; '.join(bad) or 'breakdown is lossless')
+        if len(obs) == self.n + 1 and obs[1].get('lookup') is not None and 'canonicalize' in obs[1]:
+            # order-preserving rebuild on real units: check the decomposition law on what rink reports
+            q = obs[0]
+            if q.get('outcome') == 'panic' or q.get('render_panic'):
+                return True, 'panic %s' % (q.get('panic') or q.get('render_panic'))
+            j = q.get('json') or {}
+            if j.get('type') != 'unitList':
+                return True, 'conformable list refused: %s' % q.get('display')
+            uv = [Fraction(o['lookup']['value']) for o in obs[1:]]
+            inch = Fraction(254, 10000)
+            sign = -1 if v < 0 else 1
+            val = sign * Fraction(100000003, 7) * inch
+            parts = [Fraction(int(e['rawValue']['value']['numer']), int(e['rawValue']['value']['denom'])) for e in j['list']]
+            bad = []
+            if sum(p_ * u_ for p_, u_ in zip(parts, uv)) != val:
+                bad.append('parts do not sum to the value')
+            rem = val
+            for i, (p_, u_) in enumerate(zip(parts, uv)):
+                rem -= p_ * u_
+                if i < len(parts) - 1 and p_.denominator != 1:
+                    bad.append('part %d not an integer' % i)
+                if i < len(parts) - 1 and abs(rem) >= u_:
+                    bad.append('remainder after unit %d is not smaller than the unit' % i)
+                if p_ != 0 and (p_ > 0) != (val > 0):
+                    bad.append('part %d has the wrong sign' % i)
+            return (bool(bad), '%s: %s' % (q.get('display'), '; '.join(bad) or 'lossless'))
         if obs and 'display' in obs[0] or (obs and obs[0].get('stage') == 'eval'):
             q = obs[0]
             if q.get('outcome') == 'panic' or q.get('render_panic'):
@@ -325,3 +363,74 @@ def harnesses(tier):
     consts = [(n, Fraction(vals[n]['value'])) for n in DURATION_UNITS]
     hs.append(ToList(6, consts=consts, name='to_list.duration_breakdown'))
     return hs
+
+
+# --------------------------------------------------------------------------------------------------------------
+class DurationReply(Harness):
+    """the automatic breakdown as produced by eval_query itself (not only to_list): a plain time result"""
+    name = 'eval_query.duration_reply'
+    props = ('C09', 'C04')
+    entry = 'eval_query'
+    describe = ('eval_query on a plain expression whose value is an arbitrary number of seconds: the DurationReply fields years..seconds, '
+                'with the six unit values served from the loaded database')
+    stubs = (LOOKUP_STUB, SHOW_STUB, TO_PARTS_STUB, CANON_STUB, CONF_STUB, UNKNOWN_STUB, DEFAULT_PARTS,
+             (r'^eval_expr$', lambda ex, nc, a: ok(dup(ex.env['value'])), 'eval_expr -> arbitrary number of seconds'))
+    loop_bound = 12
+    expect_classes = ['Result::Ok']
+    _concrete = None
+
+    def build(self, ex, I):
+        v = I.real('v')
+        vals = dbvalues.units(DURATION_UNITS)
+        self.consts = [(n, Fraction(vals[n]['value'])) for n in DURATION_UNITS]
+        ex.env['units'] = {n: number(rational(c), dim({'s': (True, 1)})) for n, c in self.consts}
+        ex.env['value'] = variant(ex, 'Value', 'Number', [number(rational(v), dim({'s': (True, 1)}))])
+        q = variant(ex, 'Query', 'Expr', [expr_const(ex, rational(Fraction(1)))])
+        return [ref(Opaque('Context')), ref(q)], {'v': v}
+
+    def post(self, ex, ctx, outcome):
+        v = zreal(ctx['v'])
+        r = deref_all(outcome[1])
+        if not is_ok(r):
+            return [('a time value has a duration breakdown', False)]
+        rep = deref_all(payload(r))
+        if rep.vname != 'Duration':
+            return [('a time value yields a Duration reply (got %s)' % rep.vname, False)]
+        dr = deref_all(rep.fields[0])
+        f = ex.prog.src.structs['DurationReply']
+        rv = ex.prog.src.structs['NumberParts'].index('raw_value')
+        obs = []
+        total = z3.RealVal(0)
+        rem = v
+        for key, (nm, c) in zip(['years', 'weeks', 'days', 'hours', 'minutes', 'seconds'], self.consts):
+            np_ = deref_all(dr.fields[f.index(key)])
+            raw = np_.fields[rv]
+            if not is_some(raw):
+                return [('%s carries its raw value' % key, False)]
+            x = zreal(numeric_parts(number_parts(payload(raw))[0])[1])
+            total = total + x * zreal(c)
+            rem = rem - x * zreal(c)
+            if key != 'seconds':
+                obs.append(('%s is an integer' % key, z3.IsInt(x)))
+                obs.append(('remainder after %s is smaller than one %s' % (key, nm), z3.If(rem >= 0, rem, -rem) < zreal(c)))
+            obs.append(('%s shares the sign of the value' % key, z3.Or(x == 0, (x > 0) == (v > 0))))
+        obs.append(('years..seconds times the database unit values sum to the value', total == v))
+        return obs
+
+    def prefer(self, ctx):
+        return [z3.IsInt(ctx['v']), z3.And(ctx['v'] > -10 ** 10, ctx['v'] < 10 ** 10)]
+
+    def native(self, inputs, label):
+        return [{'mode': 'query', 'text': '%s s' % frac_text(Fraction(inputs['v']))}]
+
+    def judge(self, inputs, label, obs):
+        helper = ToList(6, consts=self.consts if hasattr(self, 'consts') else [(n, Fraction(dbvalues.units(DURATION_UNITS)[n]['value'])) for n in DURATION_UNITS],
+                        name='x')
+        return helper.judge(inputs, label, obs)
+
+
+_c09_prev = harnesses
+
+
+def harnesses(tier):   # noqa: F811
+    return _c09_prev(tier) + [DurationReply()]
